@@ -1,4 +1,4 @@
 (* C07 — placeholder while the model is being tied; replaced by the theorem file. *)
 From WK Require Import Base.Base Model.MsgStore Model.MsgStore_C07.
-Example c07_stub : C07_monitor (C07Case [] []) = 0.
+Example c07_stub : C07_monitor (C07Case false [] []) = 0.
 Proof. reflexivity. Qed.
